@@ -51,7 +51,7 @@ def run(ctx):
     # every shard (own keys and messages) runs the whole lattice; the bit-flip sweep is divided among the shards
     core = [c for c in cases if c["enc"] != "bitflip"]
     flips = [c for c in cases if c["enc"] == "bitflip"]
-    worlds = 1 if quick else 3
+    worlds = 1 if quick else 6
     argvs, traces = [], []
     for k in range(shards):
         tp = os.path.join(ctx.scratch, "trace%d.ndjson" % k)
